@@ -11,6 +11,7 @@ TNext == /\ l <= Len(Tr) /\ l' = l + 1 /\ UNCHANGED g
                                   /\ r.count = r.basecount                                         \* the text is carried exactly as often as plain text in that position is
                                   /\ (r.visible => r.count >= 1)                                   \* ... which is at least once where the format shows that position at all
                                   /\ \A i \in 1 .. Len(r.segs) : r.segs[i] \in Allowed(r.fmt, r.slot, r.ch)   \* and only in an escaped form of the target
+              [] r.e = "edge"  -> ~r.null /\ r.valid /\ r.count = r.basecount /\ (r.visible => r.count >= 1)   \* the first / last character of a text is carried whole, as often as a digit in its place
               [] r.e = "order" -> ~r.null /\ r.words = Order(r.ks, r.fmt)                          \* every word once, in the order the format prescribes
               [] r.e = "nest"  -> r.parsed /\ Dyck(r.events)                                       \* everything opened is closed, in order
               [] r.e = "rawres" -> ~r.null /\ r.leftover = <<>>                                   \* a delimiter that found no partner is text: no reserved character of the target is left bare
